@@ -1,6 +1,7 @@
 """C01 Theta update sketch is an exact hash-threshold sample (DESIGN.md section 5 C01): structural clauses."""
 import theta_rules as T
 import chains
+import hll_rules
 
 
 def run(facts, tier):
@@ -11,6 +12,7 @@ def run(facts, tier):
         ("pivot agreement", T.pivots, 2, "nth_element pivot index == index whose key becomes theta == new retained count"),
         ("emptiness/duplicates", T.emptiness_and_duplicates, 3, "hash_and_screen clears is_empty_ before any return; insert only after a failed find"),
         ("canonical chains", lambda fa: chains.obligations(fa, ["theta"]), 11, "typed update overloads follow the cross-language canonicalisation contract"),
+        ("probe extent", lambda fa: hll_rules.probe_extent(fa, ("theta", "tuple")), 1, "the resized table is probed with the lg size it was allocated with"),
         ("builder/reset", T.builder_reset, 2, "reset() restores theta through the builder's helper; re-reads follow member resets"),
     ):
         o = f(facts)
